@@ -68,8 +68,11 @@ impl Check for New {
             } => (name, type_args),
         };
 
-        // the name of the instance of the data type in the symbol table, the instance must exists
-        // already
+        // make sure the instance of the expected codata type exists (it may be mentioned here for
+        // the first time)
+        expected.check(&Some(self.span), symbol_table)?;
+
+        // the name of the instance of the codata type in the symbol table
         let type_name = name.clone() + &type_args.print_to_string(None);
         let expected_dtors = match symbol_table.types.get(&type_name) {
             Some((Polarity::Codata, _type_args, dtors)) => dtors.clone(),
